@@ -25,7 +25,10 @@ from harness.x_series import Registry, build, proj, outcome, collapse
 
 warnings.simplefilter('ignore')
 
-BINARY = ['sub', 'div', 'pow', 'gt', 'ge', 'lt', 'le']        # exactly two operands
+BINARY = ['pow', 'gt', 'ge', 'lt', 'le']                      # exactly two operands
+CUTS = ['sub', 'div']                                         # a list on either side (OpsLaw!OpsCutOutcomes)
+CMPS = ['gt', 'ge', 'lt', 'le']
+METHODS = {'none': None, 'ffill': 'ffill', 'bfill': 'bfill', 'v0': 0, 'v1': 1}      # OpsLaw!OpsMethods -> the method parameter
 FOLDS = ['add', 'mul', 'min', 'max']                          # lists reduce left to right
 AGGS = ['sum', 'mean', 'count']
 
@@ -37,12 +40,14 @@ def shape_class(x):
 def forms_for(op, n):
     if op in BINARY:
         return ['ab']
+    if op in CUTS:
+        return ['ab', 'a_list', 'list_list'] if n == 2 else ['a_list', 'list_b', 'list_list']
     if n == 2:
         return ['ab', 'list', 'a_list']
     return ['list', 'list_b', 'a_list', 'list_list']
 
 
-def call(op, xs, form, join, cols, rng=None):
+def call(op, xs, form, join, cols, rng=None, m='none'):
     """one public call on freshly built operands -> observation"""
     import pyg_base as pg
     reg = Registry()
@@ -53,6 +58,8 @@ def call(op, xs, form, join, cols, rng=None):
     else:
         f = getattr(pg, op + '_')
         kw = dict(join=join, columns=cols)
+        if m != 'none':
+            kw['method'] = METHODS[m]
     n = len(objs)
     if form == 'ab':
         args = (objs[0], objs[1])
@@ -70,7 +77,8 @@ def call(op, xs, form, join, cols, rng=None):
     conts = [a for a in args if isinstance(a, list)]          # the lists handed over: which operands they hold, before and after
     before = [[ident(m) for m in c] for c in conts]
     err, res = outcome(lambda: f(*args, **kw))
-    o = {'op': op, 'xs': xs, 'form': form, 'join': join, 'cols': cols, 'after': [proj(x) for x in objs],
+    nl = len(args[0]) if isinstance(args[0], list) else 1        # how many operands the first argument holds
+    o = {'op': op, 'xs': xs, 'form': form, 'join': join, 'cols': cols, 'm': m, 'nl': nl, 'after': [proj(x) for x in objs],
          'lists': before, 'lists_after': [[ident(m) for m in c] for c in conts]}
     o['out'] = err if err is not None else {'kind': 'val', 'v': proj(res)}
     return o
@@ -79,7 +87,7 @@ def call(op, xs, form, join, cols, rng=None):
 def case_key(o):
     classes = [shape_class(x) for x in o['xs']]
     ts = sorted(set(c for c in classes if c != 'c'))
-    return {'op': o['op'], 'form': o['form'], 'join': o['join'], 'cols': o['cols'], 'shapes': ','.join(classes),
+    return {'op': o['op'], 'form': o['form'], 'join': o['join'], 'cols': o['cols'], 'method': o.get('m', 'none'), 'shapes': ','.join(classes),
             'mixed_shapes': len(ts) > 1, 'raised': o['out'].get('cls', ''), 'xs': o['xs']}
 
 
@@ -106,7 +114,7 @@ def trivial(xs, w):
 def s2c(ctx, report, cases, budget):
     cases = sorted(cases, key=lambda c: json.dumps([c['fam'], c['xs']], sort_keys=True))   # TLC's workers print in any order
     for c in cases:
-        c['exp'].sort(key=lambda e: json.dumps([e['op'], e['join'], e['cols']]))
+        c['exp'].sort(key=lambda e: json.dumps([e['op'], e['join'], e['cols'], e['m'], e['form']]))
     work = [(ci, ei) for ci, c in enumerate(cases) for ei in range(len(c['exp']))]
     if budget and len(work) > budget:
         work = ctx.rng.sample(work, budget)
@@ -115,9 +123,9 @@ def s2c(ctx, report, cases, budget):
         xs, e = cases[ci]['xs'], cases[ci]['exp'][ei]
         op, join, cols = e['op'], e['join'], e['cols']
         want = [collapse(w) for w in e['out']]
-        forms = forms_for(op, len(xs))
+        forms = [e['form']] if e['form'] else forms_for(op, len(xs))      # (the outcome of sub_ / div_ with a list depends on the side)
         for form in (forms if budget == 0 else [forms[(ci + ei) % len(forms)]]):
-            o = call(op, xs, form, join, cols)
+            o = call(op, xs, form, join, cols, m=e['m'])
             ctx.evals += 1
             out = o['out']
             if o['after'] != xs:
@@ -179,7 +187,7 @@ def pick_cols(rng, op, xs):
     """a column policy under which the statement pins the result down for these operands (None: neither)"""
     nops = len(xs)
     multi = [tuple(x['c']) for x in xs if x['k'] == 'f' and len(x['c']) > 1]
-    pinned = op in ('add', 'sub', 'mul', 'div') or op in AGGS or len(set(multi)) <= 1
+    pinned = op in ('add', 'sub', 'mul', 'div') or op in AGGS or op in CMPS or len(set(multi)) <= 1
     common = set.intersection(*[set(m) for m in multi]) if multi else set()
     # 'ij' needs a shared column; with three or more operands at least two (a frame reduced to one column
     # travels on as a pseudo-series and the statement does not say how the next operand meets it)
@@ -198,7 +206,7 @@ def c2s(ctx, report, n):
         op = rng.choice(ops)
         T = rng.choice([4, 8, 30, 30])
         prev = []
-        nops = 2 if op in BINARY else rng.choice([2, 3, 3, 4])
+        nops = 2 if op in BINARY else rng.choice([2, 2, 3, 4]) if op in CUTS else rng.choice([2, 3, 3, 4])
         mix = rng.random()
         kinds = ['s'] if mix < 0.35 else ['s', 'c'] if mix < 0.5 else ['f'] if mix < 0.65 else ['f', 'f', 's', 'q', 'c']
         qname = rng.choice(['a', 'q'])      # the one-column frames of a tuple share their header (PseudoSeries: it is ignored)
@@ -212,7 +220,10 @@ def c2s(ctx, report, n):
             continue                        # neither column policy is pinned down for this tuple
         join = 'oj' if op in AGGS else rng.choice(['ij', 'oj'])
         form = rng.choice(forms_for(op, nops))
-        obs.append(call(op, xs, form, join, cols, rng=rng))
+        if op == 'div' and nops > 2 and any(x['k'] == 'c' and x['v'] == val(0) for x in xs[1:]):
+            continue                        # the scalar divisor 0 is stated for two operands (Series!DivScalarZero)
+        m = rng.choice(['ffill', 'bfill', 'v0', 'v1']) if nops == 2 and op not in AGGS and rng.random() < 0.3 else 'none'
+        obs.append(call(op, xs, form, join, cols, rng=rng, m=m))
     ctx.evals += len(obs)
     bad = ctx.validate('Trace_Ops', obs)
     for ln, clause in bad:
@@ -241,10 +252,6 @@ def exponent(rng, x):
 
 # ---- sessions (spec/OpsSession.tla): a heap of caller-owned operands and containers, a history of calls in every ----
 # ---- calling form and of the caller's own actions; the heap is looked at again after every step                  ----
-CUTS = ['sub', 'div']
-CMPS = ['gt', 'ge', 'lt', 'le']
-
-
 def seq(x):
     """TLC prints an empty sequence as [] and an empty function as {}"""
     return list(x) if x else []
